@@ -46,13 +46,35 @@ fn window_case<const N: usize>() {
 //@ props: C21
 //@ tier: quick
 //@ funcs: index::highlight::highlight_fragments (source slice: from `let start = m.start()...` to `let fragment = ...`)
-//@ symbolic: text = every well-formed UTF-8 string of exactly 6 bytes (any mix of 1-4 byte characters); match offsets [ms, me) on character boundaries; fragment_size with fragment_size >= 2*(me-ms)
-//@ bounds: 6-byte text, fragment_size <= 14
+//@ symbolic: text = every well-formed UTF-8 string of exactly 5 bytes (any mix of 1-4 byte characters); match offsets [ms, me) on character boundaries; fragment_size with fragment_size >= 2*(me-ms)
+//@ bounds: 5-byte text, fragment_size <= 12 (6- and 8-byte texts in the thorough tier)
 //@ oracle: the fragment is non-empty, is exactly text[start..end], contains the match, and is at most fragment_size bytes long
 //@ assumes: the regex engine returns a non-empty match on character boundaries (its documented contract)
 //@ outside: which terms match, tag insertion by replace_all, the number_of_fragments loop
 #[kani::proof]
+#[kani::unwind(8)]
+fn c21_fragment_window_utf8_5() {
+  window_case::<5>()
+}
+
+//@ like: c21_fragment_window_utf8_5
+//@ tier: thorough
+//@ timeout: 2700
+//@ symbolic: text = every well-formed UTF-8 string of exactly 6 bytes; match offsets on character boundaries; fragment_size >= 2*(me-ms)
+//@ bounds: 6-byte text, fragment_size <= 14
+#[kani::proof]
 #[kani::unwind(9)]
 fn c21_fragment_window_utf8_6() {
   window_case::<6>()
+}
+
+//@ like: c21_fragment_window_utf8_5
+//@ tier: thorough
+//@ timeout: 2700
+//@ symbolic: text = every well-formed UTF-8 string of exactly 8 bytes; match offsets on character boundaries; fragment_size >= 2*(me-ms)
+//@ bounds: 8-byte text, fragment_size <= 18
+#[kani::proof]
+#[kani::unwind(11)]
+fn c21_fragment_window_utf8_8() {
+  window_case::<8>()
 }
